@@ -17,6 +17,7 @@ be a behaviour of IterProto).
 Level: exploration (the byte space is sampled; the protocol spec is model-checked).
 """
 import json, os, random, threading, time
+import c01_operands
 from concurrent.futures import ThreadPoolExecutor
 from vlib import read_ndjson, write_ndjson, canon, ToolError, SPEC, VERIF, log
 
@@ -498,6 +499,7 @@ def run(ctx):
     recipes += targeted_recipes()
     recipes += fused_middle_recipes(ctx)
     recipes += encoding_sweep_recipes()
+    recipes += c01_operands.recipes(q)
     # every small raw family also through the faulty reader at every operation
     for name, secs, sec, patch, only in raw_families():
         for tail in ([0x10, 0x80, 0x01], [0x03, 1, 2, 3, 4, 5, 6, 7, 8], [0x0f, 2, 0x91, 0x7f, 0x40], [0, 9, 2, 1, 2, 3, 4, 5, 6, 7, 8, 0x21]):
@@ -755,7 +757,7 @@ def recipe_class(r):
     b = r.get("base", "raw")
     ks = "+".join(sorted(set(m.get("k", "") for m in r.get("mut", [])))) or "none"
     ident = r.get("id", "")
-    if ident.startswith(("deep:", "x:", "tg:", "fm:", "enc:")):
+    if ident.startswith(("deep:", "x:", "tg:", "fm:", "enc:", "op:")):
         return ident
     return "%s:%s:%s" % (b.split(":")[0], ks, ",".join(r.get("only", ["all"]))[:40])
 
